@@ -49,3 +49,130 @@ def _mk(family):
 
 for _f in FAMILIES:
     _mk(_f)
+
+
+# ---------------------------------------------------------------------------------------------
+# data-structure level: ordered de-duplicating handler set, registration, firing, inheritance
+
+import itertools
+
+from spyne.evmgr import EventManager
+from spyne.service import ServiceBase
+from spyne.util.oset import oset
+
+
+def _dedupe(seq):
+    out = []
+    for x in seq:
+        if x not in out:
+            out.append(x)
+    return out
+
+
+@obligation('C14.oset.view', targets=['spyne.util.oset:oset.add', 'spyne.util.oset:oset.__iter__'],
+            desc="abstract view of oset = insertion-ordered sequence without duplicates: after any sequence of add() "
+                 "the iteration order is the first-occurrence order, len and membership agree with the view",
+            bounded="all sequences of up to 4 add() calls over 3 distinct keys (120 sequences)")
+def oset_view(c):
+    n = c.choose([0, 1, 2, 3, 4], 'n_adds')
+    seqs = list(itertools.product('abc', repeat=n))
+    seq = c.choose(seqs, 'keys')
+    s = c.call(oset)
+    for k in seq:
+        c.call(s.add, k)
+    got = list(c.call(iter, s))
+    c.check('iteration_is_first_occurrence_order', got == _dedupe(seq), detail=(seq, got))
+    c.check('len_agrees', c.call(len, s) == len(_dedupe(seq)))
+    c.check('membership_agrees', all((k in seq) == bool(c.call(s.__contains__, k)) for k in 'abcd'))
+
+
+@obligation('C14.evmgr.order_dedupe_stop', targets=['spyne.evmgr:EventManager.add_listener', 'spyne.evmgr:EventManager.fire_event'],
+            desc="listeners run in registration order, a listener registered twice runs once, firing stops at the first "
+                 "raising listener and propagates that very exception, listeners of other events do not run",
+            bounded="all registration sequences of up to 4 registrations over 3 listeners x each single raising listener")
+def evmgr_order(c):
+    n = c.choose([0, 1, 2, 3, 4], 'n_registrations')
+    seq = c.choose(list(itertools.product([0, 1, 2], repeat=n)), 'registrations')
+    raising = c.choose([None, 0, 1, 2], 'raising_listener')
+    ran = []
+    boom = RuntimeError('x')
+
+    def mk(i):
+        def listener(ctx):
+            ran.append(i)
+            if i == raising:
+                raise boom
+        listener._pyvc_native = True
+        return listener
+    ls = [mk(i) for i in range(3)]
+
+    def other(ctx):
+        ran.append('other')
+    other._pyvc_native = True
+    mgr = c.call(EventManager, None)
+    c.call(mgr.add_listener, 'other_event', other)
+    for i in seq:
+        c.call(mgr.add_listener, 'ev', ls[i])
+    out = c.run(mgr.fire_event, 'ev', object())
+    order = _dedupe(seq)
+    if raising in order:
+        want = order[:order.index(raising) + 1]
+        c.check('raising_listener_propagates', out.raised and out.exc is boom, detail=repr(out))
+    else:
+        want = order
+        c.check('returns', out.returned, detail=repr(out))
+    c.check('ran_in_registration_order_once', ran == want, detail=(seq, ran, want))
+
+
+@obligation('C14.inheritance.service_listeners', targets=['spyne.service:ServiceBaseMeta.__get_base_event_handlers'],
+            desc="service-level listeners are inherited by subclasses: the subclass' handlers for each event are the "
+                 "ordered union of its bases' handlers (bases in MRO order, no duplicates); the bases' own handler sets "
+                 "are not modified and not aliased",
+            bounded="class trees: one or two bases, 0..2 listeners per base and event, shared listeners")
+def inheritance(c):
+    def mk(tag):
+        def l(ctx):
+            ctx.append(tag)
+        l._pyvc_native = True
+        l.__name__ = 'l_' + tag
+        return l
+    la, lb, lc, ld = [mk(t) for t in 'abcd']
+    shape = c.choose(['single', 'two_bases', 'two_bases_shared', 'grandparent'], 'tree_shape')
+
+    class B1(ServiceBase):
+        pass
+    B1.event_manager.add_listener('method_call', la)
+    B1.event_manager.add_listener('method_call', lb)
+    B1.event_manager.add_listener('method_return_object', lc)
+
+    class B2(ServiceBase):
+        pass
+    B2.event_manager.add_listener('method_call', ld)
+    if shape == 'two_bases_shared':
+        B2.event_manager.add_listener('method_call', la)
+    before = {b: {k: list(v) for k, v in b.event_manager.handlers.items()} for b in (B1, B2)}
+    if shape == 'single':
+        bases = (B1,)
+    elif shape == 'grandparent':
+        class Mid(B1):
+            pass
+        bases = (Mid,)
+    else:
+        bases = (B1, B2)
+    out = c.run(type(ServiceBase), 'Sub', bases, {})
+    c.check('class_created', out.returned, detail=repr(out))
+    if not out.returned:
+        return
+    Sub = out.value
+    want_call = _dedupe([l for b in bases for l in list(b.event_manager.handlers.get('method_call', []))])
+    got_call = list(Sub.event_manager.handlers.get('method_call', []))
+    c.check('inherits_ordered_union', got_call == want_call, detail=([f.__name__ for f in got_call],
+                                                                      [f.__name__ for f in want_call]))
+    c.check('inherits_other_events', list(Sub.event_manager.handlers.get('method_return_object', [])) == [lc])
+    Sub.event_manager.add_listener('method_call', mk('z'))
+    after = {b: {k: list(v) for k, v in b.event_manager.handlers.items()} for b in (B1, B2)}
+    c.check('bases_not_modified_nor_aliased', before == after)
+    trace = []
+    o2 = c.run(Sub.event_manager.fire_event, 'method_call', trace)
+    c.check('inherited_listeners_run_in_order', o2.returned and trace == [f.__name__[-1] for f in want_call] + ['z'],
+            detail=trace)
